@@ -41,6 +41,9 @@ func genC17(t *rapid.T) c17Prog {
 			if rapid.IntRange(0, 2).Draw(t, "failpub") == 0 { // the write that fails is a publication
 				ops = append(ops, sim.Op{Kind: "publish", A: rapid.IntRange(0, w.Replicas-1).Draw(t, "pubrep")})
 			}
+		case 5:
+			// two replicas of one writer, in the same state, append the same payload at the same time
+			ops = append(ops, sim.Op{Kind: "twinrace", A: rapid.IntRange(0, w.Replicas-1).Draw(t, "racerep"), PC: rapid.SampledFrom([]int{0, 1, 4}).Draw(t, "racepc")})
 		case 4:
 			// the caller's context is already cancelled when the next append / publication is issued
 			ops = append(ops, sim.Op{Kind: "cancelnext"})
@@ -82,6 +85,7 @@ func runC17(tb ev.TB, p c17Prog) ev.Result {
 	var committed []committedAppend
 	twins, exactTwins, multiWrite, leftovers := 0, 0, 0, 0
 	cancelArmed, cancelled := false, 0
+	races := 0
 	for i, op := range p.World.Ops {
 		n := len(w.Reps)
 		opCtx := ctx
@@ -95,6 +99,75 @@ func runC17(tb ev.TB, p c17Prog) ev.Result {
 		switch op.Kind {
 		case "cancelnext":
 			cancelArmed = true
+			continue
+		case "twinrace":
+			// two replicas of the same writer in the same state append the same payload concurrently: both produce
+			// the same block. The first write is held inside the store; whatever the second Append returns meanwhile
+			// must already be stored (a crash at that instant may only lose operations that have not returned).
+			r := w.Reps[op.A%n]
+			if failArmed || cancelArmed {
+				continue
+			}
+			mk := func() *ipfslog.IPFSLog {
+				tl, err := ipfslog.NewLog(w.Store.API(), r.Log.Identity, &ipfslog.LogOptions{ID: sim.LogID, Entries: r.Log.GetEntries(), Heads: r.Log.Heads().Slice(), SortFn: world.SortFn(w.Order), IO: w.IO,
+					Clock: entry.NewLamportClock(r.Log.Identity.PublicKey, r.Log.Clock.GetTime())})
+				if err != nil {
+					tb.Fatalf("op #%d twin log: %v", i, err)
+				}
+				return tl
+			}
+			t1, t2 := mk(), mk()
+			payload := []byte(fmt.Sprintf("race-%d", i))
+			release := make(chan struct{})
+			entered := make(chan struct{})
+			target := w.Store.NumAdds()
+			w.Store.SetAddHold(func(nth int, _ cid.Cid) <-chan struct{} {
+				if nth == target {
+					close(entered)
+					return release
+				}
+				return nil
+			})
+			type res struct {
+				e   iface.IPFSLogEntry
+				err error
+			}
+			first := make(chan res, 1)
+			go func() {
+				e, err := t1.Append(ctx, payload, &ipfslog.AppendOptions{PointerCount: op.PC})
+				first <- res{e, err}
+			}()
+			select {
+			case <-entered:
+			case r1 := <-first:
+				// the first append ended without writing a block at all
+				w.Store.SetAddHold(nil)
+				if r1.err == nil {
+					if _, ok := w.Store.Raw(r1.e.GetHash()); !ok {
+						tb.Fatalf("op #%d: Append returned %s without writing its block", i, world.Short(r1.e.GetHash().String()))
+					}
+				}
+				continue
+			}
+			e2, err2 := t2.Append(ctx, payload, &ipfslog.AppendOptions{PointerCount: op.PC})
+			stored := false
+			if err2 == nil {
+				_, stored = w.Store.Raw(e2.GetHash())
+			}
+			close(release)
+			r1 := <-first
+			w.Store.SetAddHold(nil)
+			if err2 != nil || r1.err != nil {
+				tb.Fatalf("op #%d concurrent twin appends failed: %v / %v", i, r1.err, err2)
+			}
+			if !stored {
+				tb.Fatalf("op #%d: an Append returned %s while the only write of that block was still in flight (held in the store): the block was not stored when the operation returned", i, world.Short(e2.GetHash().String()))
+			}
+			races++
+			w.Reg.Record(e2)
+			set := r.Model.Clone()
+			set.Add(e2.GetHash().String())
+			rets = append(rets, returned{kind: "entry", c: e2.GetHash(), prefix: w.Store.NumWrites(), set: set, heads: world.SetOf([]string{e2.GetHash().String()}), opIndex: i})
 			continue
 		case "twindeny":
 			// a second replica of the same writer that holds exactly the history one committed entry was appended
@@ -408,6 +481,7 @@ func runC17(tb ev.TB, p c17Prog) ev.Result {
 	}
 	ev.Get("C17").AddExtra("write_prefixes_checked", total)
 	ev.Get("C17").AddExtra("loads_from_prefixes", loads)
+	ev.Get("C17").AddExtra("concurrent_twin_appends_of_one_block", races)
 	ev.Get("C17").AddExtra("operations_issued_with_a_cancelled_context", cancelled)
 	ev.Get("C17").AddExtra("injected_write_failures", nfail)
 	ev.Get("C17").AddExtra("operations_repeated_right_after_a_failed_write", retries)
@@ -475,7 +549,7 @@ func (a state) diff(b state) string {
 func TestC17(t *testing.T) {
 	c := ev.Get("C17")
 	c.Level = "fault_enumeration"
-	c.Rule = "a generated multi-replica program over ONE shared store (appends with skip references, unbounded merges, identity changes, default or link-key codec) interleaved with manifest publications, injected block-write failures (half of them followed at once by the same operation again: the publication repeated, the append made by a second replica of the same writer in the same state) appends that an access controller refuses although they reproduce a committed block, and appends / publications issued with an already cancelled context (whatever they return without an error must be stored). Crash points are the boundaries between block writes of the fake store (every Dag().Add of the library is one atomic step): for EVERY write prefix of the history every entry block must decode and name only blocks written before it, and every manifest only stored heads. Every value returned to a caller (each append's hash, each manifest CID) is loaded from the store truncated to the prefix that existed when it was returned, from the final store and from further prefixes (all later prefixes in the thorough tier, 2 generated ones in quick) and must give exactly the entry set / heads / values of the log at that moment. An operation whose block write fails must either return an error and leave entries and heads unchanged, or return a value whose block is stored after all (it is then held to the same loads). Non-trivial = history with a merge-append (entry with >= 2 predecessors) and an append after a publication by the same replica; distinct = distinct program."
+	c.Rule = "a generated multi-replica program over ONE shared store (appends with skip references, unbounded merges, identity changes, default or link-key codec) interleaved with manifest publications, injected block-write failures (half of them followed at once by the same operation again: the publication repeated, the append made by a second replica of the same writer in the same state) appends that an access controller refuses although they reproduce a committed block, appends / publications issued with an already cancelled context (whatever they return without an error must be stored), and two replicas of one writer appending the same entry at the same time while the first write of the block is held inside the store (what the second returns must be stored already). Crash points are the boundaries between block writes of the fake store (every Dag().Add of the library is one atomic step): for EVERY write prefix of the history every entry block must decode and name only blocks written before it, and every manifest only stored heads. Every value returned to a caller (each append's hash, each manifest CID) is loaded from the store truncated to the prefix that existed when it was returned, from the final store and from further prefixes (all later prefixes in the thorough tier, 2 generated ones in quick) and must give exactly the entry set / heads / values of the log at that moment. An operation whose block write fails must either return an error and leave entries and heads unchanged, or return a value whose block is stored after all (it is then held to the same loads). Non-trivial = history with a merge-append (entry with >= 2 predecessors) and an append after a publication by the same replica; distinct = distinct program."
 	c.Assumptions = []string{"replicas share one store (the statement's setting); block writes are atomic", "the clock bump of a failed append is not part of the observable state checked (entries and heads are)"}
 	ev.Check(t, "C17", genC17, runC17)
 }
